@@ -37,6 +37,7 @@ def run(rep, tier):
     clamp(rep, F)
     nn_coverage(rep, F)
     line_line(rep, F)
+    point_kernel(rep, F)
 
 
 def dispatch(rep, F, D):
@@ -301,3 +302,23 @@ def line_line(rep, F):
         rep.ok("R7.6", "line-line")
     else:
         rep.bad("R7.6", "shape", "zero / min-of-four paths not both found (%s)" % seen, where=fn.loc())
+
+
+def point_kernel(rep, F, rule="R7.7"):
+    """The innermost kernel of every Euclidean length / distance: |p - q| computed as hypot(dx, dy) of the coordinate differences (a plain
+    sqrt(dx*dx + dy*dy) overflows to infinity or underflows to zero for extreme magnitudes, which breaks `within rounding tolerance`)."""
+    from .c01 import opaque
+    from ..symex import bare
+    rep.rule(rule, "Euclidean distance(Coord, Coord) = hypot(dx, dy) of the coordinate differences")
+    fs = F.find(r"Distance<F, .*coord::Coord<F>, .*coord::Coord<F>> for .*Euclidean>::distance$", crates=("geo",))
+    if len(fs) != 1:
+        rep.bad(rule, "point-kernel:anchor", "%d Coord-Coord distance impls" % len(fs))
+        return
+    rets = [bare(p.ret) for p in opaque(F).run(fs[0]) if p.kind == "ret"]
+    ok_forms = (r"^hypot\(sub\(a2, a3\)\.x, sub\(a2, a3\)\.y\)$", r"^hypot\(sub\(a3, a2\)\.x, sub\(a3, a2\)\.y\)$",
+                r"^hypot\(sub\(a[23]\.x, a[23]\.x\), sub\(a[23]\.y, a[23]\.y\)\)$", r"^hypot\(sub\(a2, a3\)\.y, sub\(a2, a3\)\.x\)$")
+    if len(rets) == 1 and any(re.match(f, rets[0]) for f in ok_forms):
+        rep.ok(rule, "point-kernel:hypot")
+    else:
+        rep.bad(rule, "point-kernel", "distance(Coord, Coord) is %s, expected hypot(dx, dy): squaring the differences first overflows / underflows for coordinates of extreme magnitude, so lengths "
+                "become inf or 0" % rets[:2], where=fs[0].loc())
